@@ -1,6 +1,6 @@
 ---- MODULE UnitsEmit ----
 EXTENDS Units, Json, IOUtils
-Out == IF IOEnv.WHAT = "seq" THEN SetToSeq(Seqs) ELSE SetToSeq(Pairs)
+Out == IF IOEnv.WHAT = "seq" THEN SetToSeq(Seqs(0)) ELSE SetToSeq(Pairs(0))
 ASSUME ndJsonSerialize(IOEnv.OUT_FILE, Out)
 VARIABLE x
 Init == x = 0
